@@ -204,7 +204,7 @@ func (c *fnCtx) checkPost(args []*Val) {
 				continue
 			}
 			o := &Obl{Class: "post", Fn: c.fnName(), Pos: c.eng.prog.Fset.Position(r.pos), Text: en.Src, Guard: r.reach, Cond: f}
-			o.Name = fmt.Sprintf("%s#post:%s/ret%d", o.Fn, shortText(fmt.Sprintf("e%d %s", i, en.Src)), ri)
+			o.Name = fmt.Sprintf("%s#post:%s/%s", o.Fn, shortText(fmt.Sprintf("e%d %s", i, en.Src)), c.retLabel(ri))
 			c.obls = append(c.obls, o)
 		}
 		if ct.Modifies != nil {
@@ -241,7 +241,7 @@ func (c *fnCtx) frameObls(ri int, r retInfo) {
 		}
 		cond := fmt.Sprintf("(forall ((r Int)) (=> (<= (owner r) %s) (= (select %s r) (select %s r))))", c.em.wm0, h1, h0)
 		o := &Obl{Class: "frame", Fn: c.fnName(), Pos: c.eng.prog.Fset.Position(r.pos), Text: "unchanged " + k, Guard: r.reach, Cond: cond}
-		o.Name = fmt.Sprintf("%s#frame:%s/ret%d", o.Fn, shortText(k), ri)
+		o.Name = fmt.Sprintf("%s#frame:%s/%s", o.Fn, shortText(k), c.retLabel(ri))
 		c.obls = append(c.obls, o)
 	}
 }
